@@ -8,13 +8,15 @@ from rv.hooks import rpc as R
 
 LEVEL = 'fault_enumeration'
 SHARDS = {'quick': 1, 'thorough': 4}
-OUTCOMES = ['ok', 'e404', 'e500', 'e401', 'conn', 'transient_ok', 'proto500']
+OUTCOMES = ['ok', 'e404', 'e500', 'e401', 'conn', 'transient_ok', 'proto500', 'timeout']
 
 
-def judge(ctx, n, seq, layout=None):
+def judge(ctx, n, seq, layout=None, addressing='plain'):
     """layout: optional list of node indices, e.g. [0, 0, 1] = the same address configured twice (a weighted rotation)."""
     from pytezos.rpc.node import RpcError, RpcMultiNode
-    uris = ['http://n%d.test' % i for i in (layout or range(n))]
+    # node addresses with and without a path prefix (https://rpc.tzkt.io/mainnet is of the second kind), some on the same host
+    forms = ['http://n%d.test', 'http://shared.test/net%d', 'http://n%d.test:8732', 'http://shared.test/a/b%d/']
+    uris = [forms[(i + len(seq)) % len(forms) if addressing == 'mixed' else 0] % i for i in (layout or range(n))]
     n = len(uris)
     state = {'call': -1, 'sub': 0}
 
@@ -33,6 +35,8 @@ def judge(ctx, n, seq, layout=None):
             return R.make_response(500, [{'kind': 'temporary', 'id': 'proto.alpha.tez.subtraction_underflow'}])
         if o == 'conn':
             raise requests.exceptions.ConnectionError('refused')
+        if o == 'timeout':
+            raise requests.exceptions.ReadTimeout('timed out')
         if o == 'transient_ok':
             if state['sub'] == 1:
                 return R.make_response(503, [{'kind': 'temporary', 'id': 'node.busy'}])
@@ -53,14 +57,16 @@ def judge(ctx, n, seq, layout=None):
                     node.post('/x', json={})
             except RpcError:
                 pass
-            except requests.exceptions.ConnectionError:
+            except (requests.exceptions.ConnectionError, requests.exceptions.Timeout):
                 pass
     marks.append(len(t.log))
-    case = {'nodes': n, 'outcomes': list(seq), 'layout': layout}
+    case = {'nodes': n, 'outcomes': list(seq), 'layout': layout, 'addressing': addressing}
+    if addressing != 'plain':
+        ctx.count('histories_with_path_prefixed_addresses')
     if layout:
         ctx.count('histories_with_an_address_configured_twice')
     fails = sum(1 for o in seq[:-1] if o not in ('ok',))
-    ctx.case((n, tuple(seq), tuple(layout or ())), nontrivial=n > 1 and fails > 0)
+    ctx.case((n, tuple(seq), tuple(layout or ()), addressing), nontrivial=n > 1 and fails > 0)
     targets = []
     for i in range(len(seq)):
         reqs = [e for e in t.log[marks[i]:marks[i + 1]] if e[0] == 'req']
@@ -69,13 +75,14 @@ def judge(ctx, n, seq, layout=None):
             return ctx.violation('C28|no-request', 'call %d issued no HTTP request' % i, case)
         first = reqs[0][2]
         targets.append(first)
-        if not first.startswith(uris[i % n] + '/'):
+        if not first.startswith(uris[i % n].rstrip('/') + '/'):
             prev = seq[i - 1] if i else 'start'
             return ctx.violation('C28|wrong-node|after-' + prev,
                                  'request %d went to %s, expected node %d (%s); outcomes=%r' % (i, first, i % n, uris[i % n], seq),
                                  case)
-        if any(not r[2].startswith(uris[i % n] + '/') for r in reqs[1:]):
-            ctx.count('retries_sent_to_other_node')  # reported, not judged
+        if any(not r[2].startswith(uris[i % n].rstrip('/') + '/') for r in reqs[1:]):
+            other = next(r[2] for r in reqs[1:] if not r[2].startswith(uris[i % n].rstrip('/') + '/'))
+            return ctx.violation('C28|request-also-sent-to-another-node|after-' + seq[i], 'request %d belongs to node %d (%s), it was also sent to %s' % (i, i % n, uris[i % n], other), case)
     if len(ctx.samples) < ctx.max_samples:
         ctx.samples.append({'case': case, 'targets': targets})
     ctx.count('histories_checked')
@@ -99,6 +106,13 @@ def run(ctx):
                 i += 1
                 if ctx.mine(i):
                     judge(ctx, n, seq)
+    # addresses with path prefixes / ports / shared hosts
+    for n in (1, 2, 3, 4):
+        for L in range(1, 5):
+            for seq in itertools.product(['ok', 'e500', 'conn', 'timeout'], repeat=L):
+                i += 1
+                if ctx.mine(i):
+                    judge(ctx, n, seq, None, 'mixed')
     # node lists in which an address occurs more than once: the i-th request still goes to entry i mod n of the list
     for layout in ([0, 0], [0, 0, 1], [0, 1, 0], [0, 1, 1], [0, 0, 1, 1], [0, 1, 0, 2], [0, 1, 2, 0], [1, 0, 0, 0]):
         for L in range(1, ctx.pick(5, 6) + 1):
@@ -108,7 +122,8 @@ def run(ctx):
                     judge(ctx, len(layout), seq, layout)
     ctx.require('http_requests', 10)
     ctx.require('histories_with_an_address_configured_twice', 10)
+    ctx.require('histories_with_path_prefixed_addresses', 10)
 
 
 def replay(ctx, case):
-    judge(ctx, case['nodes'], case['outcomes'], case.get('layout'))
+    judge(ctx, case['nodes'], case['outcomes'], case.get('layout'), case.get('addressing', 'plain'))
